@@ -19,7 +19,7 @@ import (
 
 const rule = "cases = rapid-drawn (engine config with small memtables, key pool incl. 1- and 4096-byte keys, 10-40 lock-aware requests over " +
 	"get/put/del/batch/scan/begin/commit/rollback/txget/txput/txdel/txscan/nodeinfo/stats with several handles, unknown and finished handles, " +
-	"out-of-limit keys/values/batches, scan options as a product); oracle = the same operation through the embedded API on a twin engine " +
+	"out-of-limit keys/values/batches, scan options drawn independently plus, in some cases, the full 3x2x3x4x5 option product as one macro request); oracle = the same operation through the embedded API on a twin engine " +
 	"(scans: full embedded listing filtered by the documented meaning), rejected requests must fail and leave map, handles and lock unchanged; " +
 	"non-trivial = requests alternate between >= 2 simultaneously open handles, or a boundary-size request (out-of-limit, or exactly at a limit) " +
 	"issued while a handle is open is followed by an accepted request on that still-open handle; distinct by FNV-64 of the case JSON"
@@ -130,6 +130,11 @@ func classify(c *Case) (nontrivial bool, classes []string) {
 				}
 			}
 			switch r.Op {
+			case "scanproduct":
+				set["scan_option_product"] = true
+				if r.H >= 0 && len(md.slot(r.H).ov) > 0 {
+					set["txscan_with_overlay"] = true
+				}
 			case "scan", "txscan":
 				s := scanReq(r.Scan)
 				set["scan_"+scanKind(s)] = true
